@@ -544,7 +544,7 @@ func (x *c10World) connDead() bool {
 
 func checkC10(c *ev.Ctx) {
 	setupFixtures()
-	c.Rule("E1 BFS over histories of the real shimagent.Server (constructed by shimagent.New through the dial seam): AddHardCert(6 incl. plain key, absent key, wire-form key), Add(3), Remove(4), RemoveAll, List, Signers, Sign(7 incl. RSA/ECDSA/Ed25519 and via Signers()), Forward(5 raw bodies, 0..64KiB), and a fault plan as part of the history: at most one (thorough: two) deviation {failure, close, empty, unknown type, truncated, oversized 16MiB+1, huge 2^32-16} at underlying request offset 0/1 (thorough 2) from any point, plus construction faults at request 0 in no-upstream mode; roots = both modes x 4 initial contents (two of them with expired certificates at non-adjacent / adjacent positions, so purging runs inside the operations) + 6 construction-fault roots + 2 hold roots (every sequence over 12 value-returning operations incl. a raw request one byte above the 16 MiB frame limit with the caller keeping every earlier result: List blobs, signatures and raw replies must not change afterwards). non-trivial = operation hit by a fault, or hardware-certificate add/sign/remove, or forward; distinct by (fault, operation, offset)")
+	c.Rule("E1 BFS over histories of the real shimagent.Server (constructed by shimagent.New through the dial seam): AddHardCert(6 incl. plain key, absent key, wire-form key), Add(3), Remove(4), RemoveAll, List, Signers, Sign(7 incl. RSA/ECDSA/Ed25519 and via Signers()), Forward(5 raw bodies, 0..64KiB; separately raw replies of 8 sizes from 1 byte to 16 MiB, complete and cut after 0 / 1 / half / all-but-one bytes of the announced body), and a fault plan as part of the history: at most one (thorough: two) deviation {failure, close, empty, unknown type, truncated, oversized 16MiB+1, huge 2^32-16} at underlying request offset 0/1 (thorough 2) from any point, plus construction faults at request 0 in no-upstream mode; roots = both modes x 4 initial contents (two of them with expired certificates at non-adjacent / adjacent positions, so purging runs inside the operations) + 6 construction-fault roots + 2 hold roots (every sequence over 12 value-returning operations incl. a raw request one byte above the 16 MiB frame limit with the caller keeping every earlier result: List blobs, signatures and raw replies must not change afterwards). non-trivial = operation hit by a fault, or hardware-certificate add/sign/remove, or forward; distinct by (fault, operation, offset)")
 	c.Assume("well-formed replies of the wrong message type are excluded (they make x/crypto's agent client panic by design)", "pass-through is compared with the same calls made directly on a twin keyring until the first fault is consumed")
 	var roots []string
 	for _, mode := range []string{"up", "noup"} {
@@ -559,5 +559,57 @@ func checkC10(c *ev.Ctx) {
 	if c.Thorough() {
 		depth = 6
 	}
+	if c.ReplayCase != nil && strings.Contains(string(c.ReplayCase), "\"reply_sizes\"") {
+		c10ReplySizes(c) // (the whole pass: 78 cases, a few seconds)
+		return
+	}
+	if c.ReplayCase == nil && !c.IsChild() {
+		c10ReplySizes(c)
+	}
 	runBFS(c, func(root string) bfs.World { return newC10World(c, root) }, roots, depth, 0)
+}
+
+// c10ReplySizes: raw replies of every size class through Forward, complete and cut short. A complete reply is relayed
+// byte for byte; a reply whose stream ends before the announced body is complete is an error, never a shorter reply.
+func c10ReplySizes(c *ev.Ctx) {
+	n := 0
+	for _, noUp := range []bool{false, true} {
+		for _, size := range []int{1, 1000, 65536, 262144, 262145, 300 << 10, 1 << 20, 16 << 20} {
+			sents := []int{-1, 0, 1, size / 2, size - 1} // -1 = the complete reply
+			for _, sent := range sents {
+				if sent >= size && sent != -1 {
+					continue
+				}
+				c.Eval()
+				n++
+				k := map[string]any{"reply_sizes": true, "no_upstream": noUp, "announced": size, "sent": sent}
+				w := newShimWorld(noUp, []string{"K1"}, nil)
+				if w.newErr != nil || w.newPan != "" {
+					c.Violation("C10:harness:newshim", fmt.Sprint(w.newErr, w.newPan), k)
+					w.Close()
+					return
+				}
+				fault := fmt.Sprintf("bigreply:%d", size)
+				if sent >= 0 {
+					fault = fmt.Sprintf("cutframe:%d:%d", size, sent)
+				}
+				w.ua.Plan[len(w.ua.Log)] = fault
+				var resp []byte
+				var ferr error
+				pn := ev.Guard(func() { resp, ferr = w.shim.Forward([]byte{0xc9, 1}) })
+				switch {
+				case pn != "":
+					c.Violation("C10:panic:"+ev.PanicSite(pn), "Forward crashed:\n"+pn, k)
+				case sent < 0 && (ferr != nil || len(resp) != size):
+					c.Violation("C10:forward:reply-altered", fmt.Sprintf("a complete raw reply of %d bytes came back as %d bytes, err=%v", size, len(resp), ferr), k)
+				case sent >= 0 && ferr == nil:
+					c.Violation("C10:forward:truncated-reply-returned-as-success", fmt.Sprintf("the underlying agent announced a reply of %d bytes and the connection ended after %d of them; Forward returned %d bytes and no error", size, sent, len(resp)), k)
+				}
+				c.Outcome(fmt.Sprintf("reply-size/complete=%v/err=%v", sent < 0, ferr != nil))
+				c.Nontrivial(fmt.Sprint("replysize", noUp, size, sent))
+				w.Close()
+			}
+		}
+	}
+	c.Set("reply_size_cases", n)
 }
